@@ -264,6 +264,8 @@ pub fn sensitive_set() -> Vec<String> {
         "zzz9".to_string(),
         "ü💩".to_string(),
         "abab q".to_string(),
+        // a long test case made of a repeated unit (length- and repetition-triggered code paths)
+        "abcabcabcabcabcabc".to_string(),
         // a pair whose order flips under case folding ("Bc" < "ad" but "bc" > "ad")
         "Bc".to_string(),
         "ad".to_string(),
